@@ -76,6 +76,9 @@ Step(st) ==
                    ELSE [nf[1] EXCEPT !.pc = "next"]                           \* loop again
   ELSE st
 
+RECURSIVE Run(_, _)
+Run(s, fuel) == IF s.pc = "done" \/ fuel = 0 THEN s ELSE Run(Step(s), fuel - 1)
+
 (* ---- model checking ------------------------------------------------------- *)
 VARIABLE st
 DiskStates(rec) ==
